@@ -159,6 +159,11 @@ CmpOK(r) ==
   /\ (DoPos(r) /\ S35(r) /\ orc) =>
        /\ Le(so, ts) /\ Le(r.sog, TolG(0, fi)) /\ Le(r.sok, TolK(0, fi))
        /\ r.srfin /\ Le(r.rso, ts) /\ Le(r.rsok, TolK(0, fi)) /\ Le(r.rsog, GRev(TolG(0, fi), ts, rho))
+       \* DocumentedOrder: the class documents a series of order 6 in n, so at any flattening its error at a point is the
+       \* round-off bound plus the truncation error of the order-6 series there (|order 6 - order 30| of the documented series,
+       \* evaluated by the driver in long double), with a factor 2; a more accurate implementation passes a fortiori
+       /\ Le(so, Add(Mul(TolSer, b), Mul(2, r.t6f)))
+       /\ Le(r.rso, Add(Mul(TolSer, b), Mul(2, r.t6r)))
   /\ r.ex =>
        LET eo == IF EqBack(r) THEN MinI(r.eo, r.eom) ELSE r.eo IN
        /\ DoPos(r) =>
